@@ -333,6 +333,7 @@ def run(ctx):
                 "isolated processes.  trivial = a stream in one page with a single row; distinct = distinct case dicts")
     try:
         stage_schema(ctx, pq, w)
+        stage_struct_levels(ctx, pq, w)
         if not FX:
             stage_fixtures(ctx, pq, w)
         stage_direct(ctx, pq, w)
@@ -435,6 +436,29 @@ def stage_schema(ctx, pq, w):
                          "a non-standard shape (%s) is accepted as one-level %s" % (what, kind.upper()))
             elif accepted:
                 ctx.count("schema.accepted_nonstandard", what)
+
+
+# ---- E: core._nested_levels (LIST / MAP groups below a struct group) ----------------------------
+
+def stage_struct_levels(ctx, pq, w):
+    for kind in ("list", "map"):
+        for ro, eo in SHAPES:
+            for st in (None, {"name": "s", "opt": False}, {"name": "s", "opt": True}):
+                col = dict(name=("s.c" if st else "c"), kind=kind, row_opt=ro, elem_opt=eo, ptype="int64", key_ptype="utf8")
+                if st:
+                    col["struct"] = st
+                leaves = NF.leaf_columns(col)
+                res = w.call({"op": "nested_levels", "cols": [col], "paths": [l["path"] for l in leaves]})
+                case = {"stage": "nested-levels", "kind": kind, "row_opt": ro, "elem_opt": eo, "struct": st}
+                ctx.case(case)
+                if "ok" not in res:
+                    ctx.fail({"component": "_nested_levels", "kind": kind}, case, "core._nested_levels raised: %r" % (_trim(res),))
+                    continue
+                for leaf, r in zip(leaves, res["ok"]):
+                    m = pq.call("nested_levels", r["path_types"], r["defi"], r["max_def"])
+                    ctx.correspondence("nested_levels ~ core._nested_levels", {**case, "leaf": leaf["which"]},
+                                       [bool(int(m[0])), [int(x) for x in m[1]], int(m[2]), "uint8", True],
+                                       [r["null"], r["defi_out"], r["max_def_out"], r["dtype"], r["none_passthrough"]])
 
 
 # ---- D: nested files written by others (repository test data) --------------------------------
@@ -752,8 +776,8 @@ def expected_cells(col, rows):
     if col["kind"] == "flat":
         return [{"scalar": repr(v)} for v in rows]
     if col["kind"] == "list":
-        return rows
-    return [None if r is None else {"dict": [[k, v] for k, v in r]} for r in rows]
+        return [None if r == NF.STRUCT_NULL else r for r in rows]
+    return [None if (r is None or r == NF.STRUCT_NULL) else {"dict": [[k, v] for k, v in r]} for r in rows]
 
 
 def file_case_classes(case):
@@ -768,8 +792,8 @@ def file_case_classes(case):
                 if lay["version"] != 1 or leaf["which"] == "flat":
                     continue
                 lrows = NF.leaf_rows(c, leaf, rg["rows"][c["name"]])
-                rep, de, vals = NF.shred(lrows, leaf["row_opt"], leaf["elem_opt"])
-                _, _, max_def = NF.levels_of_shape(leaf["row_opt"], leaf["elem_opt"])
+                rep, de, vals = NF.shred_leaf(lrows, leaf)
+                max_def = NF.max_def_leaf(leaf)
                 pages = NF.chunk_pages(rep, de, vals, max_def, lay["cuts"])
                 classes.update(classify_v1_pages([(p[0], p[1]) for p in pages], max_def))
     return sorted(classes)
@@ -786,16 +810,27 @@ def model_file(pq, case, written):
                 continue            # no assembly: only the oracle looks at flat columns
             vt = vts.setdefault((leaf["col"], leaf["which"]), VTable())
             n = len(rg["rows"][leaf["col"]])
-            mp = [m_page(r, d, v, vt) for (r, d, v) in leaf["pages"]]
+            ro_call = leaf["row_opt"]
+            pages = leaf["pages"]
+            if leaf.get("struct_opt") is not None:
+                # LIST / MAP group below a struct: the call parameters and levels read_col derives (model of _nested_levels)
+                pt = [1 if leaf["struct_opt"] else 0, 1 if leaf["row_opt"] else 0, 2, 1 if leaf["elem_opt"] else 0]
+                folded = []
+                for (r, d, v) in pages:
+                    nl = pq.call("nested_levels", pt, d, leaf["max_def"])
+                    ro_call = bool(int(nl[0]))
+                    folded.append((r, [int(x) for x in nl[1]], v))
+                pages = folded
+            mp = [m_page(r, d, v, vt) for (r, d, v) in pages]
             if leaf["version"] == 1:
-                cmds.append(("run_v1_fx" if FX else "run_v1", leaf["row_opt"], leaf["elem_opt"], n, mp))
+                cmds.append(("run_v1_fx" if FX else "run_v1", ro_call, leaf["elem_opt"], n, mp))
             else:
                 # read_data_page_v2's branch for this leaf's pages (model of the if/elif chain): record assembly?
                 br = pq.call("v2_branch", False, 1, 8 if leaf["dictionary"] else 0)
                 if br != b"assemble":
-                    cmds.append(("run_v2", False, leaf["row_opt"], leaf["elem_opt"], 0, [[mp[0], 1]]))   # -> model error
+                    cmds.append(("run_v2", False, ro_call, leaf["elem_opt"], 0, [[mp[0], 1]]))   # -> model error
                 else:
-                    cmds.append(("run_v2", False, leaf["row_opt"], leaf["elem_opt"], n,
+                    cmds.append(("run_v2", False, ro_call, leaf["elem_opt"], n,
                                  [[p, sum(1 for x in r if x == 0)] for p, (r, _, _) in zip(mp, leaf["pages"])]))
             idx.append((gi, leaf["col"], leaf["which"]))
     outs = pq.batch(cmds) if len(cmds) > 3 else [pq.call(*c) for c in cmds]
@@ -876,6 +911,7 @@ def check_file_case(ctx, pq, w, case, path, conf_budget):
     ctx.count("file.codecs", ",".join(sorted({str(lay.get("codec")) for rg in case["rgs"] for lay in rg["layout"].values()})))
     ctx.count("file.kinds", ",".join(sorted(c["kind"] + ("" if c["kind"] == "flat" else ("/opt" if c["row_opt"] else "/req") + ("/opt" if c["elem_opt"] else "/req"))
                                             for c in case["cols"])))
+    ctx.count("file.struct_nested", ",".join(sorted({("optional struct" if c["struct"]["opt"] else "required struct") for c in case["cols"] if c.get("struct")})) or "top level")
     ctx.count("file.row_groups", len(case["rgs"]))
     ctx.count("file.max_pages_per_chunk", max(len(lay["cuts"]) + 1 for rg in case["rgs"] for lay in rg["layout"].values()))
     written = write_case(case, path)
@@ -1002,6 +1038,10 @@ def stage_files(ctx, pq, w):
                     col["group_name"] = "map"
             elif rng.random() < 0.3:
                 col["group_name"], col["elem_name"] = rng.choice([("bag", "array_element"), ("array", "item"), ("list", "item")])
+            if rng.random() < 0.25:
+                # the LIST / MAP group sits inside a struct group; pandas column "s<k>.<name>"
+                col["struct"] = {"name": "s%d" % ci, "opt": rng.random() < 0.6}
+                col["name"] = "s%d.%s" % (ci, name)
             cols.append(col)
         if rng.random() < 0.35:
             # an ordinary required column before / between / after the nested ones
@@ -1035,11 +1075,13 @@ def stage_files(ctx, pq, w):
                     rows = gen_rows(rng, col["row_opt"], col["elem_opt"], nrows, maxlen, col["ptype"])
                 else:
                     rows = gen_map_rows(rng, col["row_opt"], col["elem_opt"], nrows, maxlen, col["key_ptype"], col["ptype"])
+                if col.get("struct") and col["struct"]["opt"]:
+                    rows = [NF.STRUCT_NULL if rng.random() < 0.15 else r for r in rows]
                 rg["rows"][col["name"]] = rows
                 for leaf in NF.leaf_columns(col):
                     lrows = NF.leaf_rows(col, leaf, rows)
-                    rep, de, vals = NF.shred(lrows, leaf["row_opt"], leaf["elem_opt"])
-                    _, _, max_def = NF.levels_of_shape(leaf["row_opt"], leaf["elem_opt"])
+                    rep, de, vals = NF.shred_leaf(lrows, leaf)
+                    max_def = NF.max_def_leaf(leaf)
                     version = rng.choice([1, 1, 2])
                     lay = gen_layout(rng, rep, version, ptype=leaf["ptype"])
                     if version == 1 and not anywhere:
